@@ -21,7 +21,7 @@ CHECKS = {
             "Strategy object: explicit-state BFS over snapshots of the real ExponentialBackOff under {failure, reset} to depth 14 (all 2^15-1 sequences land in the 15 visited states) with every max_delay 1..3600 evaluated in every state. "
             "Manager: every script of outcomes {fail, succeed-then-lost after 1/3/10 s} up to length 6-8 x 5 (threshold, sleep, max_delay) settings on the virtual-time loop with the manager's wall clock substituted by the virtual clock; "
             "the time stamps of factory calls must satisfy the capped exponential back-off and loss-breaker bounds."
-            " Also: run-length families f^k, f^k r, f^k r f^j for k = 1..200 on the strategy object; manager scripts with outages of 30..100 failures followed by a reconnect, attempts that take 0.4..61 s to fail, 8 (threshold, sleep, max_delay) settings.",
+            " Also: run-length families f^k, f^k r, f^k r f^j for k = 1..200 on the strategy object; manager scripts with outages of 30..100 failures followed by a reconnect, attempts that take 0.4..61 s to fail, 8 (threshold, sleep, max_delay) settings. Calendar phase: loss scripts with the manager's wall clock started 11 s before every hour of the daylight-saving switch days, leap day, new year and 2038, in a UTC process and in a CET/CEST process.",
             "Trusted: virtual clock substitution through han.meter_connection.datetime; slack 1e-6 s.", "explicit-state exploration of the strategy object + exhaustive bounded environment scripts on the virtual-time loop", "DESIGN.md 4/C18", "E2+E6"),
     "C07": ("model_checking",
             "Bounded-exhaustive input shapes for the Aidon decoder: 8 documented list layouts, every prefix, every rotation, the reversal and every element alone; per integer type (u32, i16, u16) a boundary/bit-pattern/seed alphabet "
@@ -42,13 +42,13 @@ CHECKS = {
     "C10": ("model_checking",
             "31 680 date-times from the full product of reduced field alphabets plus complete single-field sweeps (all 1441 deviations and 'unspecified', all 256 status octets, all hundredths, every day of 2023/2024, times of day, all day-of-week values) "
             "placed in each of the six syntactic positions (APDU tagged/untagged, Aidon, Kaifa positional, Kaifa OBIS, Kamstrup clock elements), compared with == and utcoffset()."
-            " Also: every 29 February of all leap years, first/last day of every month of all century years, the complete calendar 1..9999 in one position (thorough), and sequences of consecutive date-times naming one instant in different offsets.",
+            " Also: every 29 February of all leap years, first/last day of every month of all century years, the complete calendar 1..9999 in one position (thorough), and sequences of consecutive date-times naming one instant in different offsets. Civil times of the daylight-saving switch nights are decoded in a UTC process and in a CET/CEST process.",
             "Trusted: reference date-time encoder; no full cross product of complete field ranges.", "bounded-exhaustive field-product enumeration x 6 syntactic positions on the real decoders", "DESIGN.md 4/C10", "E5"),
     "C11": ("model_checking",
             "Grammar-shape enumeration of P1 data blocks (1..3 data sets per line, 1..3 values per set over 5 value kinds, LF/CRLF, blank lines), every presence pattern of A,B,F over all 30 known C.D.E codes and unknown ones x unit letter-case variants, "
             "the complete grid of decimals with 0..3 fraction digits for 25 integer parts x leading zeros, clock values, 270 identification lines; each block through parse, decode_p1_readout_content, decode_p1_readout and both AutoDecoder entry points "
             "against an exact (Fraction) reference."
-            " Also: leading zeros / value lengths 0..130, 255..257, 1000, 4000; relations between data sets of one block (same address twice, same field name from two addresses); source-harvested words as values and ids.",
+            " Also: leading zeros / value lengths 0..130, 255..257, 1000, 4000; relations between data sets of one block (same address twice, same field name from two addresses); source-harvested words as values and ids. The objects of a parse result are edited by the caller and the same block is parsed again.",
             "Trusted: exact reference parser (bound to the data sets of the 5 captured readouts).", "bounded-exhaustive grammar-shape enumeration with an exact-arithmetic reference", "DESIGN.md 4/C11", "E5"),
     "C12": ("model_checking",
             "Explicit-state exploration of the real AutoDecoder to a fixpoint: 8 states (remembered decoder) x a pool of 120+ payloads (28 captured messages, reference-built lists of every supported shape in frame and body form, 5 P1 blocks, junk): every "
@@ -63,12 +63,12 @@ CHECKS = {
     "C15": ("model_checking",
             "Every truncation and every 1-octet substitution (16 structural values, b+-1, b^1; thorough: 2-octet structural substitutions) of genuine messages, and every ASCII string up to length 4-7 over {1 . ( ) * x LF}, each given to the real AutoDecoder in "
             "each of its 8 states and through both entry points under a deterministic call-count budget (400 n + 40 000 Python calls; observed maximum about 4 % of it): no exception, dict or None, terminates."
-            " Also: each remembered decoder reached by k genuine messages (k in {1,6}, thorough up to 64), well-formed messages with clocks at year 1 / 9999 in all six date-time positions, source-harvested words alone and inside P1-looking text.",
+            " Also: each remembered decoder reached by k genuine messages (k in {1,6}, thorough up to 64), well-formed messages with clocks at year 1 / 9999 in all six date-time positions, source-harvested words alone and inside P1-looking text. Number texts (exponents up to 1E999999999, 400..20000-digit strings, signs, separators, inf/nan) x 9 addresses x 27 unit spellings; a real-time watchdog (45 s per evaluation, shared-memory heart beat) reports evaluations that hang inside one C call.",
             "Trusted: the call-count budget as proxy for time and memory; RLIMIT_AS backstop.", "deviation-bounded exhaustive mutation of messages x all decoder states with a deterministic termination monitor", "DESIGN.md 4/C15", "E3"),
     "C20": ("model_checking",
             "All 16 presence patterns of the optional groups x group values over {0,1,9,10,99,100,255} in both syntaxes (3.3e5 codes), complete 0..255 sweep of every group, format->parse round trip whenever optional groups are absent or non-zero, "
             "every string up to length 6-8 over {1 . - : * a space} without digit.digit (must raise ValueError), all 5.3e6 ordered pairs of 2304 tuples for ==/hash."
-            " Also: objects derived from a formatted original (filter_group_cde, copy, Obis(as_tupple())) must behave like fresh objects.",
+            " Also: objects derived from a formatted original (filter_group_cde, copy, Obis(as_tupple())) must behave like fresh objects. Sequences of == with valid, malformed and repeated malformed strings over several objects.",
             "Trusted: reference formatter mc/ref/obis.py.", "exhaustive enumeration of the bounded input space", "DESIGN.md 4/C20", "E5"),
     "C01": ("model_checking",
             "Bounded-exhaustive exploration of the real HdlcFrameReader: every octet string up to length N over a 5/7-symbol alphabet that contains "
@@ -116,7 +116,7 @@ CHECKS = {
             "Every noise prefix up to the bound over the reduced octet alphabets and the token alphabets, every truncation of every pool message (also followed by 7D, 7E, 7D7E), announced-length headers, 1-edit messages, "
             "long flag-free / LF-free runs, each followed by a clean suffix and run one-shot, noise-octet-wise, with cuts at the boundary -2..+2 and octet-wise; the valid messages returned must contain every suffix "
             "message but possibly the first (stuffing, P1) / every flag-free frame starting more than 2047 + its length after the noise (no stuffing)."
-            " Also: suffix frames from the check-sequence octet sweep, long periodic noise prefixes, and 5-6 KiB readouts in the P1 suffix.",
+            " Also: suffix frames from the check-sequence octet sweep, long periodic noise prefixes, and 5-6 KiB readouts in the P1 suffix. Junk containing '/' lines that are not identification lines x every cut (pairs of cuts for short junk).",
             "Trusted: suffix construction (own opening and closing flag per frame; the shared-flag form is checked and reported under its own kind).",
             "bounded-exhaustive enumeration of noise prefixes x clean suffix on the real readers", "DESIGN.md 4/C16", "E1"),
     "C19": ("model_checking",
@@ -130,7 +130,7 @@ CHECKS = {
             "three-octet messages through the public update()), all 2^16 residues with exact and bit-flipped "
             "trailers, and complete small domains of compute_checksum windows, each compared with a bit-serial "
             "RFC 1662 reference. Exhaustive for the step function, hence (induction on length) for every byte string."
-            " Also: windows on 9000-octet buffers around powers of two and 2047..2049, 70 000-octet incremental runs, and re-use of one bytes/bytearray object with in-place changes between calls.",
+            " Also: windows on 9000-octet buffers around powers of two and 2047..2049, 70 000-octet incremental runs, and re-use of one bytes/bytearray object with in-place changes between calls. Windows whose running register is 0000/FFFF/F0B8/0001/8000 before the last 1-3 octets.",
             "Trusted: the bit-serial reference (mc/ref/fcs.py, anchored to the X-25 check value) and the induction "
             "argument from the complete step-function domain to all strings.",
             "exhaustive state-space enumeration of the FCS register machine (2^24 transitions) on the real code",
